@@ -192,7 +192,15 @@ class Exec:
         if sched["mode"] == "pool":
             w = sched["W"]
             self.counters["rows<W" if n < w else ("rows=W" if n == w else "rows>W")] += 1
-        model = models.scan_model(case["model"])
+        if case.get("keep_model"):
+            # the caller keeps ONE model object and scans it again and again
+            if "model" not in self.kept:
+                self.kept["model"] = models.scan_model(case["model"])
+            else:
+                self.counters["probe:same_model_object_scanned_again"] += 1
+            model = self.kept["model"]
+        else:
+            model = models.scan_model(case["model"])
         cache_dir = None
         if case.get("cache_prefill") is not None and self.labclass == "labels:unique":
             import os
@@ -224,6 +232,18 @@ class Exec:
             pass
         # ---- read the lazily evaluated views in the seeded order --------------
         reads = case["reads"]
+        if reads.get("edit_before_read") and not case.get("keep_model"):
+            # the caller goes on working with ITS model before looking at the result: the result
+            # belongs to the scan that was run, not to what the model is turned into afterwards
+            try:
+                if reads["edit_before_read"] == "reaction":
+                    model.update_reaction("v1", fn=models.double_ma1)
+                else:
+                    pn = models.SCAN_MODELS[case["model"]][0][0]
+                    model.update_parameter(pn, float(model.get_parameter_values().get(pn, 1.0)) * 3.0 + 1.0)
+                self.counters["caller_edited_model_between_scan_and_first_read"] += 1
+            except Exception as e:  # noqa: BLE001
+                self.trace.add("edit_before_read", "exc", type(e).__name__)
         views: dict = {}
         order = ["variables", "fluxes"] if reads["order"] == "vf" else ["fluxes", "variables"]
         for rep in range(2 if reads.get("twice") else 1):
@@ -397,7 +417,7 @@ class Exec:
 def gen_case(rng: SimRng, tier: str, avoid: dict) -> dict:  # noqa: ARG001, C901, PLR0912, PLR0915
     r = rng("case")
     kind = r.choice(KINDS)
-    model = rng.weighted("case", [("S1", 3), ("S2", 4), ("S3", 1.5)])
+    model = rng.weighted("case", [("S1", 3), ("S2", 4), ("S3", 1.5), ("S4", 2)])
     pnames, vnames = models.SCAN_MODELS[model]
     sub = kind.split(".", 1)[1]
     ncols = r.choice([1, 1, 2, 3])
@@ -476,6 +496,11 @@ def gen_case(rng: SimRng, tier: str, avoid: dict) -> dict:  # noqa: ARG001, C901
     r.shuffle(scheds)
     case["schedules"] = scheds
     case["reads"] = {"order": r.choice(["vf", "fv"]), "twice": r.random() < 0.4}
+    x = r.random()
+    if x < 0.2:
+        case["reads"]["edit_before_read"] = r.choice(["reaction", "parameter"])
+    elif x < 0.5:
+        case["keep_model"] = True
     if r.random() < 0.2 and len(rows) >= 2 and not poison and model != "S3":
         k = r.randint(1, len(rows) - 1)
         case["cache_prefill"] = sorted(r.sample(range(len(rows)), k))
